@@ -282,4 +282,121 @@ CONTRACTS = {
             ]),
         },
     ),
+
+    # ---------------------------------------------------------------- C08: streaming loop
+    'compute_batch_ranking': dict(
+        external=True, strings='opaque',
+        param_names=['line_tmp_storage', 'numeric_column_types', 'args', 'cpu_pool', 'column_descriptions', 'logger', 'pbar'],
+        params={}, globals={'BATCH_NO': 'int'}, modifies=['BATCH_NO'],
+        returns=[{'__class__': 'BatchRankingSummary', 'triplet_scores': 'list[tuple[str,str,real]]', 'step_times': 'StepTimes'},
+                 'Bounds', 'dict[str,real]', 'Memory'],
+        requires=[],
+        # Rank(rows, state): the triplets are a function of the batch rows and of the number of batches ranked before
+        ensures=[('triplets', 'same_array(result[0].triplet_scores, batch_triplets(line_tmp_storage, 0, len(line_tmp_storage), old(BATCH_NO)))'),
+                 ('counter', 'BATCH_NO == old(BATCH_NO) + 1')],
+    ),
+    'get_grouped_df': dict(
+        external=True, strings='opaque', param_names=['importances_df_list'], params={}, returns='GroupedDF',
+        function_symbol='median_table', function_args=['importances_df_list'], pure='@function_symbol', requires=[],
+    ),
+    'checkpoint_importances_df': dict(
+        external=True, strings='opaque', param_names=['importances_batch'], params={},
+        globals={'CHECKPOINT_FILE': 'GroupedDF'}, modifies=['CHECKPOINT_FILE'], requires=[],
+        ensures=[('file_holds_median_table', 'CHECKPOINT_FILE == fn_opaque("median_table", "GroupedDF", importances_batch)')],
+    ),
+    'estimate_importances_minibatches': dict(
+        strings='opaque',
+        params={'input_file': 'str', 'column_descriptions': 'list[str]', 'fw_col_mapping': 'FwMap', 'numeric_column_types': 'NumTypes',
+                'batch_size': 'int',
+                'args': {'__class__': 'args', 'subsampling': 'int', 'minibatch_size': 'int', 'heuristic': 'str', 'data_source': 'str',
+                         'disable_tqdm': 'str'},
+                'data_encoding': 'str', 'cpu_pool': {'__class__': 'Pool'}, 'delimiter': 'str', 'feature_construction_mode': 'bool',
+                'logger': {'__class__': 'logger'},
+                # ghosts: the data lines of the file (after the header), their parses, field counts, and the consumed rows
+                'data_lines': 'list[str]', 'parsed': 'list[list[str]]', 'nf': 'list[int]', 'consumed': 'list[list[str]]'},
+        globals={'BATCH_NO': 'int', 'CHECKPOINT_FILE': 'GroupedDF', 'GLOBAL_CARDINALITY_STORAGE': 'GStore1', 'GLOBAL_RARE_VALUE_STORAGE': 'GStore2',
+                 'GLOBAL_PRIOR_COMB_COUNTS': 'GStore3', 'GLOBAL_COUNTS_STORAGE': 'GStore4'},
+        modifies=['BATCH_NO', 'CHECKPOINT_FILE'],
+        inert=['local_pbar', 'invalid_line_queue', 'local_coverage_object', 'logger'],
+        local_kinds={'importances_df': 'list[tuple[str,str,real]]', 'line_tmp_storage': 'list[list[str]]',
+                     'bounds_storage_batch': 'list[Bounds]', 'memory_storage_batch': 'list[Memory]', 'step_timing_checkpoints': 'list[StepTimes]'},
+        lemmas=['nvalid_mono', 'trip_off_block'],
+        unfold=['batch_j'],
+        asserts={
+            'loop#1.end': [
+                ('older_batches_below', 'all(trip_off(consumed, args.minibatch_size, j) >= 0 and trip_off(consumed, args.minibatch_size, j) + '
+                                        'len(batch_j(consumed, args.minibatch_size, j)) <= len(prev(importances_df)) '
+                                        'for j in range(len(prev(step_timing_checkpoints))))'),
+                ('prefix_kept', 'len(importances_df) >= len(prev(importances_df)) and '
+                                'all(importances_df[i] == prev(importances_df)[i] for i in range(len(prev(importances_df))))'),
+                ('new_batch_block', 'implies(len(step_timing_checkpoints) == len(prev(step_timing_checkpoints)) + 1, '
+                                    'all(importances_df[len(prev(importances_df)) + t] == batch_j(consumed, args.minibatch_size, len(prev(step_timing_checkpoints)))[t] for t in range(len(batch_j(consumed, args.minibatch_size, len(prev(step_timing_checkpoints)))))))'),
+                ('batches_grow_by_at_most_one', 'len(step_timing_checkpoints) == len(prev(step_timing_checkpoints)) or '
+                                                'len(step_timing_checkpoints) == len(prev(step_timing_checkpoints)) + 1'),
+            ],
+            'after:importances_batch, bounds_storage, coverage_storage, memory_storage = compute_batch_ranking(': [
+                ('full_batch', 'len(line_tmp_storage) == args.minibatch_size'),
+                ('same_rows', 'all(same_array(line_tmp_storage[t], consumed[len(step_timing_checkpoints) * args.minibatch_size + t]) '
+                              'for t in range(args.minibatch_size))'),
+                ('same_batch', 'same_array(importances_batch.triplet_scores, batch_j(consumed, args.minibatch_size, len(step_timing_checkpoints)))'),
+            ],
+        },
+        abstract={
+            'local_pbar = tqdm.tqdm(': dict(var='local_pbar', kind={'__class__': 'pbar'}, facts=[]),
+            'file_name, file_extension = os.path.splitext(': dict(var=['file_name', 'file_extension'], kind=['str', 'str'], facts=[]),
+            # opening the input: the stream yields the header, then the data lines in file order (trusted file contract)
+            'file_stream = gzip.open(': dict(var='file_stream', kind={'__class__': 'File', 'lines': 'expr:data_lines'}, facts=[]),
+            'file_stream = open(': dict(var='file_stream', kind={'__class__': 'File', 'lines': 'expr:data_lines'}, facts=[]),
+            'invalid_lines_log =': dict(var='invalid_lines_log', kind='str', facts=[]),
+        },
+        requires=[
+            ('parameters', 'args.subsampling >= 1 and args.minibatch_size >= 1 and BATCH_NO == 0'),
+            ('parses', 'len(parsed) == len(data_lines) and len(nf) == len(data_lines) and all(same_array(parsed[i], '
+                       'fn_list("fn_generic_line_parser", data_lines[i], delimiter, args.data_source, fw_col_mapping, column_descriptions)) '
+                       'and nf[i] == len(parsed[i]) for i in range(len(data_lines)))'),
+            # the reference semantics: `consumed` lists, in file order, the parses of the lines whose 1-based position is a
+            # multiple of the subsampling factor and whose field count equals the header's
+            ('consumed_rows', 'len(consumed) == nvalid(nf, args.subsampling, len(column_descriptions), len(data_lines)) and '
+                              'all(implies((i + 1) % args.subsampling == 0 and nf[i] == len(column_descriptions), '
+                              'same_array(consumed[nvalid(nf, args.subsampling, len(column_descriptions), i)], parsed[i])) for i in range(len(data_lines)))'),
+        ],
+        returns=['list[StepTimes]', 'GroupedDF', 'GStore1', 'list[Bounds]', 'list[Memory]', {'__class__': 'defaultdict'}, 'GStore2', 'GStore3', 'GStore4'],
+        ghost_out={'g_invalid': 'int', 'g_full': 'int', 'g_nb': 'int', 'g_trips': 'list[tuple[str,str,real]]'},
+        ghost_bind={'g_invalid': 'invalid_lines', 'g_full': 'len(memory_storage_batch)', 'g_nb': 'len(step_timing_checkpoints)', 'g_trips': 'importances_df'},
+        ensures=[
+            ('malformed_rows_counted', 'g_invalid == ninvalid(nf, args.subsampling, len(column_descriptions), len(data_lines))'),
+            ('full_batches', 'g_full >= 0 and len(consumed) - g_full * args.minibatch_size >= 0 and len(consumed) - g_full * args.minibatch_size < args.minibatch_size'),
+            ('tail_rule', 'g_nb == g_full + ite(len(consumed) - g_full * args.minibatch_size > 1024, 1, 0)'),
+            ('triplets_of_full_batches', 'all(g_trips[trip_off(consumed, args.minibatch_size, j) + t] == '
+                                         'batch_j(consumed, args.minibatch_size, j)[t] '
+                                         'for j in range(g_full) for t in range(len(batch_j(consumed, args.minibatch_size, j))))'),
+            ('triplets_of_tail', 'implies(g_nb == g_full + 1, '
+                                 'len(g_trips) == trip_off(consumed, args.minibatch_size, g_full) + len(batch_triplets(consumed, g_full * args.minibatch_size, len(consumed) - g_full * args.minibatch_size, g_full)) and '
+                                 'all(g_trips[trip_off(consumed, args.minibatch_size, g_full) + t] == '
+                                 'batch_triplets(consumed, g_full * args.minibatch_size, len(consumed) - g_full * args.minibatch_size, g_full)[t] '
+                                 'for t in range(len(batch_triplets(consumed, g_full * args.minibatch_size, len(consumed) - g_full * args.minibatch_size, g_full)))))'),
+            ('no_tail_no_extra', 'implies(g_nb == g_full, len(g_trips) == trip_off(consumed, args.minibatch_size, g_full))'),
+            ('result_is_median_table_of_all_triplets', 'result[1] == fn_opaque("median_table", "GroupedDF", g_trips)'),
+            ('checkpoint_after_every_batch', 'implies(g_nb >= 1 and (args.heuristic != "Constant" or g_nb == g_full + 1), '
+                                             'CHECKPOINT_FILE == fn_opaque("median_table", "GroupedDF", g_trips))'),
+        ],
+        loops={
+            1: dict(index='k', inv=[
+                ('position', 'line_counter == k'),
+                ('invalid', 'invalid_lines == ninvalid(nf, args.subsampling, len(column_descriptions), k)'),
+                ('batches', 'nvalid(nf, args.subsampling, len(column_descriptions), k) == len(step_timing_checkpoints) * args.minibatch_size + len(line_tmp_storage) '
+                            'and len(line_tmp_storage) < args.minibatch_size and len(memory_storage_batch) == len(step_timing_checkpoints) '
+                            'and BATCH_NO == len(step_timing_checkpoints)'),
+                ('buffer', 'all(same_array(line_tmp_storage[t], consumed[len(step_timing_checkpoints) * args.minibatch_size + t]) for t in range(len(line_tmp_storage)))'),
+                ('triplets_len', 'len(importances_df) == trip_off(consumed, args.minibatch_size, len(step_timing_checkpoints))'),
+                ('triplets', 'all(importances_df[trip_off(consumed, args.minibatch_size, j) + t] == '
+                             'batch_j(consumed, args.minibatch_size, j)[t] '
+                             'for j in range(len(step_timing_checkpoints)) for t in range(len(batch_j(consumed, args.minibatch_size, j))))'),
+                ('checkpoint', 'implies(len(step_timing_checkpoints) >= 1 and args.heuristic != "Constant", '
+                               'CHECKPOINT_FILE == fn_opaque("median_table", "GroupedDF", importances_df))'),
+            ]),
+            2: dict(inv=[]),
+            3: dict(inv=[]),
+        },
+    ),
 }
